@@ -44,18 +44,19 @@ theorem getD_lt_of_bytes {l : List Nat} (h : Bytes l) (i : Nat) : l.getD i 0 < 2
 
 theorem wfB_sound {s : BmcState} (h : wfB s = true) : s.Wf := by
   simp only [wfB, Bool.and_eq_true, decide_eq_true_eq] at h
-  obtain ⟨⟨⟨⟨⟨⟨⟨⟨⟨⟨⟨⟨⟨⟨⟨⟨⟨⟨⟨⟨⟨⟨⟨⟨⟨⟨⟨⟨⟨⟨⟨⟨⟨d1, d2⟩, d3⟩, d4⟩, d5⟩, d6⟩, d7⟩, d8⟩, d9⟩, g⟩, w1⟩, w2⟩, w3⟩, w4⟩, w5⟩, c1⟩, c2⟩, bf⟩,
-    lan⟩, un⟩, ue⟩, mu⟩, fn⟩, se⟩, ea⟩, el⟩, le⟩, po⟩, pw⟩, sc⟩, pc⟩, pg⟩, hc⟩, hs⟩ := h
+  obtain ⟨⟨⟨⟨⟨⟨⟨⟨⟨⟨⟨⟨⟨⟨⟨⟨⟨⟨⟨⟨⟨⟨⟨⟨⟨⟨⟨⟨⟨⟨⟨⟨⟨⟨⟨⟨d1, d2⟩, d3⟩, d4⟩, d5⟩, d6⟩, d7⟩, d8⟩, d9⟩, g⟩, w1⟩, w2⟩, w3⟩, w4⟩, w5⟩, c1⟩, c2⟩, bf⟩,
+    lan⟩, lr⟩, un⟩, ue⟩, mu⟩, fn⟩, se⟩, ea⟩, el⟩, le⟩, po⟩, pw⟩, sc⟩, pc⟩, pg⟩, hc⟩, hs⟩, hr⟩, he⟩ := h
   refine
     { device := ⟨d1, d2, d3, d4, d5, d6, d7, d8, ?_⟩, guid := g, watchdog := ⟨w1, w2, w3, w4, w5⟩, chassis := ⟨c1, c2⟩,
       bootFlags := allB_sound bf ?_, lan := allB_sound lan fun _ _ => lanWfB_sound,
+      lanRev := allB_sound lr (by intro _ _ hh; simpa using hh),
       userNames := allB_sound un (by intro _ _ hh; simpa using hh),
       userEnabled := allB_sound ue (by intro _ _ hh; simpa using hh), maxUsers := mu, fixedNames := fn,
       sensors := allB_sound se ?_, evAddr := ea, evLun := el,
       leds := allB_sound le ?_, ports := allB_sound po fun _ _ => portWfB_sound,
       power := allB_sound pw (by intro _ _ hh; simpa using hh), sigClass := allB_sound sc (by intro _ _ hh; simpa using hh),
       powerChannels := allB_sound pc (by intro _ _ hh; simpa using hh), pmGlobal := pg, hpmComponents := hc,
-      hpmSelftest2 := hs }
+      hpmSelftest2 := hs, hpmRollback := hr, hpmRollbackEstimate := ?_ }
   · intro a ha; rw [ha] at d9; simpa using d9
   · intro k v hh hk
     simp only [Bool.or_eq_true, bne_iff_ne, decide_eq_true_eq] at hh
@@ -69,6 +70,7 @@ theorem wfB_sound {s : BmcState} (h : wfB s = true) : s.Wf := by
   · intro _ x hh
     simp only [Bool.and_eq_true] at hh
     exact ⟨ledFnWfB_sound hh.1, ledFnWfB_sound hh.2⟩
+  · intro e hh; rw [hh] at he; simpa [optAll] using he
 
 theorem ledCmdInRangeB_sound {c : LedCmd} (h : ledCmdInRangeB c = true) : c.InRange := by
   cases c with
